@@ -3,6 +3,7 @@ package main
 import (
 	"fmt"
 	"go/types"
+	"os"
 	"strings"
 
 	"golang.org/x/tools/go/ssa"
@@ -139,13 +140,40 @@ func (vc *VC) call(in ssa.Instruction, cc *ssa.CallCommon, h *Heap) []string {
 			short = f.Name()
 		} else if cc.IsInvoke() {
 			short = cc.Method.Name()
+		} else if p, isP := cc.Value.(*ssa.Parameter); isP {
+			short = p.Name() // a call of a function-typed parameter: at-call <param name>
+		} else if fv, isFV := cc.Value.(*ssa.FreeVar); isFV {
+			short = fv.Name()
 		}
-		if cls, ok := root.ct.AtCall[short]; ok {
+		// `at-call Type.Method` selects calls by receiver type too (two callees with one method name)
+		if cc.IsInvoke() {
+			if n, isN := cc.Value.Type().(*types.Named); isN {
+				if _, ok := root.ct.AtCall[n.Obj().Name()+"."+short]; ok {
+					short = n.Obj().Name() + "." + short
+				}
+			}
+		} else if f := cc.StaticCallee(); f != nil && f.Signature.Recv() != nil {
+			rt := f.Signature.Recv().Type()
+			if p, isP := rt.(*types.Pointer); isP {
+				rt = p.Elem()
+			}
+			if n, isN := rt.(*types.Named); isN {
+				if _, ok := root.ct.AtCall[n.Obj().Name()+"."+short]; ok {
+					short = n.Obj().Name() + "." + short
+				}
+			}
+		}
+		if cls, ok := root.ct.AtCall[short]; ok && short != "" {
 			ev := vc.newEval(vc.fn, *h, vc.heap0, nil)
 			blk := in.Block()
+			vc.atInstr = in
 			ev.resolve = func(n string) (EVal, bool) { return vc.resolveLocalAtBlock(ev, n, blk) }
 			// $arg0, $arg1, ... denote the actual arguments of this call (receiver first)
-			for ai, a := range cc.Args {
+			allArgs := cc.Args
+			if cc.IsInvoke() {
+				allArgs = append([]ssa.Value{cc.Value}, cc.Args...)
+			}
+			for ai, a := range allArgs {
 				ev.bound[fmt.Sprintf("$arg%d", ai)] = EVal{T: a.Type(), Terms: vc.val(a)}
 			}
 			for i, c := range cls {
@@ -165,6 +193,7 @@ func (vc *VC) call(in ssa.Instruction, cc *ssa.CallCommon, h *Heap) []string {
 				vc.goalClause(ev, c, fmt.Sprintf("%s/at-call@%s#%d@%s", root.key, short, i+1, vc.pos(in.Pos())), "at-call", vc.curR, vc.pos(in.Pos()))
 				root.atCallSeen[short]++
 			}
+			vc.atInstr = nil
 		}
 	}
 	// mutexes
@@ -278,6 +307,11 @@ func (vc *VC) call(in ssa.Instruction, cc *ssa.CallCommon, h *Heap) []string {
 	if mc, ok := cc.Value.(*ssa.MakeClosure); ok {
 		closure = mc
 		callee = mc.Fn.(*ssa.Function)
+	} else if cr, ok := vc.closureArgs[cc.Value]; ok && !cc.IsInvoke() {
+		closure = cr.mc
+		callee = cr.mc.Fn.(*ssa.Function)
+		vc.bindVC = cr.owner
+		defer func() { vc.bindVC = nil }()
 	} else {
 		callee = cc.StaticCallee()
 	}
@@ -320,7 +354,7 @@ func (vc *VC) call(in ssa.Instruction, cc *ssa.CallCommon, h *Heap) []string {
 			return fresh()
 		}
 		vc.root().callees["iface:"+key] = true
-		vc.havocAll(h, "uncontracted interface call "+key+" at "+vc.pos(in.Pos()))
+		vc.havocCall(h, "uncontracted interface call "+key+" at "+vc.pos(in.Pos()), in)
 		return fresh()
 	}
 	if strings.HasPrefix(name, "(*go.uber.org/zap.Logger).") {
@@ -342,9 +376,19 @@ func (vc *VC) call(in ssa.Instruction, cc *ssa.CallCommon, h *Heap) []string {
 	}
 	if callee != nil {
 		vc.root().callees["havoc:"+funcKey(callee)] = true
-		vc.havocAll(h, "uncontracted call "+funcKey(callee)+" at "+vc.pos(in.Pos()))
+		vc.havocCall(h, "uncontracted call "+funcKey(callee)+" at "+vc.pos(in.Pos()), in)
 	} else {
-		vc.havocAll(h, "dynamic call at "+vc.pos(in.Pos()))
+		var keep []string
+		if p, isP := cc.Value.(*ssa.Parameter); isP && vc.parent == nil && vc.ct != nil {
+			keep = vc.ct.Callbacks[p.Name()]
+			if os.Getenv("GOVC_DEBUG_CB") != "" {
+				fmt.Fprintf(os.Stderr, "callback %s: %v (all %v)\n", p.Name(), keep, vc.ct.Callbacks)
+			}
+			if len(keep) > 0 {
+				vc.root().assumed["callback "+p.Name()+" of "+vc.key+" assumed to preserve ghost state "+strings.Join(keep, ", ")] = true
+			}
+		}
+		vc.havocCall(h, "dynamic call at "+vc.pos(in.Pos()), in, keep...)
 	}
 	return fresh()
 }
@@ -809,11 +853,28 @@ func (vc *VC) inline(in ssa.Instruction, f *ssa.Function, closure *ssa.MakeClosu
 	for i, p := range f.Params {
 		if i < len(args) {
 			child.vals[p] = vc.val(args[i])
+			// a function literal passed as an argument: calls of that parameter in the callee are
+			// calls of the literal (resolved when the callee body is inlined)
+			if mc, isMC := args[i].(*ssa.MakeClosure); isMC {
+				if child.closureArgs == nil {
+					child.closureArgs = map[ssa.Value]closureRef{}
+				}
+				child.closureArgs[p] = closureRef{mc: mc, owner: vc}
+			} else if cr, ok := vc.closureArgs[args[i]]; ok {
+				if child.closureArgs == nil {
+					child.closureArgs = map[ssa.Value]closureRef{}
+				}
+				child.closureArgs[p] = cr
+			}
 		}
 	}
 	if closure != nil {
+		bvc := vc
+		if vc.bindVC != nil {
+			bvc = vc.bindVC
+		}
 		for i, fv := range f.FreeVars {
-			child.vals[fv] = vc.val(closure.Bindings[i])
+			child.vals[fv] = bvc.val(closure.Bindings[i])
 		}
 	}
 	if err := child.findLoops(); err != nil {
